@@ -408,7 +408,9 @@ class MultiIndexLocation(IndexLocation):
 
     def detachedCopy(self) -> "MultiIndexLocation":
         loc = MultiIndexLocation(None)
-        loc.extend(self._locations)
+        # the sub-locations belong to the old grid (they are its cached locators): detach copies,
+        # otherwise the removed object keeps a path to its old parent through them
+        loc.extend(subLoc.detachedCopy() for subLoc in self._locations)
         return loc
 
     def associate(self, grid: "Grid"):
